@@ -40,7 +40,7 @@ META = {
                 note=_TB + ' IEEE operations are uninterpreted deterministic functions (routing/promotion/operand order proved, hardware arithmetic trusted); String ordering assumed lexicographic; value of i64 % not proved (no installed back end terminates), value of i64 / only in the thorough tier.'),
     'C04': dict(engine='verus', design_ref='0, 4', technique='contract-based deductive verification (Verus abstract-map refinement, whole-view postconditions)',
                 text='Every HashMapContext operation proved to refine an abstract map view with whole-view postconditions (set_spec: type-safe insert or unchanged); eval_mut proved against opmut_spec (x op= e is x = x op e, read after the right-hand side); both evaluators thread the map.',
-                note=_TB + ' HashMap get/insert/get_mut/clear specs assumed; derive(Clone) independence (ownership) and iter_variables not in reach.'),
+                note=_TB + ' HashMap get/insert/get_mut/clear specs assumed; derive(Clone) independence (ownership) not in reach; of iter_variables the per-binding mapping is proved (X21), the hash-map iteration is std.'),
     'C05': dict(engine='verus', design_ref='0, 4', technique='contract-based deductive verification (Verus): evaluation arms + level-grammar stack invariant + token conservation',
                 text='Tuple/Chain/RootNode arms proved against op_spec; the evaluators evaluate every element in order; the stack of open nodes is proved to follow the level grammar Root (Chain)? (Tuple)? with the last child of an open sequence being the root of the element being parsed, an open sequence holding at least two elements, and (token conservation, through the builder loop and both collapse functions) every separator standing for exactly one more element of its sequence: w_node(tree) == number of non-parenthesis tokens.',
                 note=_TB + ' The closed-form shape theorem (flat tuple of all elements for every input) is not mechanised.'),
